@@ -5,6 +5,7 @@ package main
 import (
 	"fmt"
 	"go/types"
+	"strings"
 
 	"golang.org/x/tools/go/ssa"
 )
@@ -314,7 +315,14 @@ func ruleErrDrop(c *Ctx) []Obligation {
 					o.Trivial = true
 					obs = append(obs, o)
 				} else if why, okj := jget("errDropJustified", errDropJustified, key); okj {
-					obs = append(obs, just(R, con, c.InstrPos(call), why))
+					// a justification that leans on another call recording the same errors holds only while
+					// that call is there: some other call of the same callee in this function whose error
+					// result reaches an error recorder
+					if strings.Contains(why, "already recorded its errors") && !c.siblingCallRecords(fn, call) {
+						obs = append(obs, bad(R, con, c.InstrPos(call), "the error result is discarded, and no other call of "+desc+" in this function hands its errors to an error recorder any more (the recorded reason — "+why+" — no longer applies)"))
+					} else {
+						obs = append(obs, just(R, con, c.InstrPos(call), why))
+					}
 				} else {
 					obs = append(obs, bad(R, con, c.InstrPos(call), "the error result is discarded"))
 				}
@@ -329,4 +337,49 @@ func rootFn(fn *ssa.Function) *ssa.Function {
 		fn = fn.Parent()
 	}
 	return fn
+}
+
+// siblingCallRecords: another call of the same static callee in fn (or its closures) whose result flows into an
+// argument of an error recorder (addError / errorf / an append to an error slice).
+func (c *Ctx) siblingCallRecords(fn *ssa.Function, call *ssa.Call) bool {
+	callee := call.Call.StaticCallee()
+	if callee == nil {
+		return false
+	}
+	rec := c.errRecorders()
+	found := false
+	root := rootFn(fn)
+	for _, f2 := range c.Funcs {
+		if rootFn(f2) != root {
+			continue
+		}
+		eachInstr(f2, func(in ssa.Instruction) {
+			other, isC := in.(*ssa.Call)
+			if !isC || other == call || other.Call.StaticCallee() != callee || found {
+				return
+			}
+			// does other's value reach a recorder call's argument?
+			eachInstr(f2, func(in2 ssa.Instruction) {
+				ci, isCI := in2.(ssa.CallInstruction)
+				if !isCI || found {
+					return
+				}
+				isRec := false
+				for _, cal := range c.Callees(ci) {
+					if rec[cal] {
+						isRec = true
+					}
+				}
+				if !isRec {
+					return
+				}
+				for _, a := range ci.Common().Args {
+					if derivesThroughCalls(a, func(x ssa.Value) bool { return x == ssa.Value(other) }) {
+						found = true
+					}
+				}
+			})
+		})
+	}
+	return found
 }
